@@ -403,10 +403,85 @@ def handleHM (cfgS eagerS lateS : String) : String :=
     | _, _ => "panic"
   | _, _, _ => "bad-line"
 
+/-! ### tag-less fields that name their own prefix (CP)
+
+    CP g<n>[+p] <ty> <cfg> c(<shape>:<hexname>:<hexown>,…)
+      One Go-declared holder whose fields carry NO tag; field i is declared / pre-populated as `shape` says
+      (pp np pv nv vv vp = `Ioc.Value.CPShape`), holds the state `name` (a matter of the harness) and its own Prefix()
+      answers `own`.  A second component has one twin per seen field, tagged `prefix:"<own>"`.  Pointer shapes bind
+      `*ty`, value shapes `ty`.  Both components are populated under the document.
+      → `ok <field | unbound>… | <twin>…`, `err`, `panic` -/
+
+def pShape : String → Option CPShape
+  | "pp" => some .ptrPtrRecv
+  | "np" => some .nilPtrRecv
+  | "pv" => some .ptrValRecv
+  | "nv" => some .nilValRecv
+  | "vv" => some .valValRecv
+  | "vp" => some .valPtrRecv
+  | _ => none
+
+def shapeTy (sh : CPShape) (ty : FieldTy) : FieldTy :=
+  match sh with
+  | .valValRecv | .valPtrRecv => ty
+  | _ => .ptr ty
+
+/-- `c(shape:hexname:hexown,…)` → (shape, own) per field -/
+def pCpFields (s : String) : Option (List (CPShape × Bytes)) :=
+  match s.toList with
+  | 'c' :: '(' :: r =>
+  if r.getLast? ≠ some ')' then none else
+  let body := String.ofList r.dropLast
+  (body.splitOn ",").mapM fun part =>
+    match part.splitOn ":" with
+    | [sh, _, own] =>
+      match pShape sh, fromHex own with
+      | some c, some o => some (c, o)
+      | _, _ => none
+    | _ => none
+  | _ => none
+
+def handleCP (tyS cfgS fieldsS : String) : String :=
+  match pTy tyS.toList, pVal cfgS.toList, pCpFields fieldsS with
+  | some (ty, []), some (.map cfgM, []), some fs =>
+    let b0 : Binder := ⟨[], cfgM⟩
+    let ev := mkEval []
+    let vd := mkValidate [] true
+    -- the holder: the scanned properties of its tag-less fields (`none` = the field is no property)
+    match mapMExcept (fun f => taglessProp f.1 f.2 (shapeTy f.1 ty)) fs with
+    | .error e => showErr (some e)
+    | .ok scanned =>
+      -- the twins: `prefix:"<own>"` on a field of the same type, one per seen field
+      let twins := (fs.zip scanned).filterMap fun x =>
+        match x.2 with
+        | none => none
+        | some _ => some (freshProp false x.1.2 (shapeTy x.1.1 ty))
+      match twins.mapM id with
+      | none => "panic"
+      | some tw =>
+        let r1 := populateAll goJson ev vd b0.get stageOrder (scanned.filterMap id)
+        let r2 := populateAll goJson ev vd b0.get stageOrder tw
+        match r1.2, r2.2 with
+        | some .panic, _ => "panic"
+        | _, some .panic => "panic"
+        | some e, _ => showErr (some e)
+        | _, some e => showErr (some e)
+        | none, none =>
+          -- put the bound properties back into the order of the fields
+          let rec place (sc : List (Option HProp)) (bound : List HProp) : List String :=
+            match sc, bound with
+            | [], _ => []
+            | none :: rest, bs => "unbound" :: place rest bs
+            | some _ :: rest, b :: bs => render (b.st.bound.getD (zero b.ty)) :: place rest bs
+            | some _ :: rest, [] => "bad" :: place rest []
+          "ok " ++ joinWith " " (place scanned r1.1) ++ " | " ++ fieldsOf r2.1
+  | _, _, _ => "bad-line"
+
 def handle (line : String) : String :=
   match line.splitOn " " with
   | ["HS", mode, cfgS, opsS, eagerS, lateS] => handleHS mode cfgS opsS eagerS lateS
   | ["HM", _, cfgS, _, eagerS, lateS] => handleHM cfgS eagerS lateS
+  | ["CP", _, tyS, cfgS, fieldsS] => handleCP tyS cfgS fieldsS
   | kind :: tyS :: cfgS :: evS :: vdS :: tags =>
     if kind = "R3" || kind = "RE" || kind = "RQ" then
       match pTy tyS.toList, pVal cfgS.toList, pEvals evS, pVerdicts vdS with
